@@ -14,6 +14,8 @@ from vf.model import Repo
 TEMPS = '--temps' in sys.argv
 INVERT = '--invert' in sys.argv       # if c: A else: B  ->  if not c: B else: A   (no other noise)
 NESTED = '--rename-nested' in sys.argv  # every nested function f gets the name f_impl (no other noise)
+MIRROR = '--mirror' in sys.argv       # a < b -> b > a, a == b -> b == a, ... for every two-operand comparison (no other noise)
+KWPOS = '--kw-literals' in sys.argv   # f(x, flag=True) keeps its meaning when a literal keyword is re-ordered: keywords of every call reversed
 
 
 def _negate(t):
@@ -35,6 +37,24 @@ class Invert(ast.NodeTransformer):
   def visit_IfExp(self, node):
     self.generic_visit(node)
     node.test, node.body, node.orelse = _negate(node.test), node.orelse, node.body
+    return node
+
+
+class Mirror(ast.NodeTransformer):
+  FLIP = {ast.Lt: ast.Gt, ast.Gt: ast.Lt, ast.LtE: ast.GtE, ast.GtE: ast.LtE, ast.Eq: ast.Eq, ast.NotEq: ast.NotEq}
+
+  def visit_Compare(self, node):
+    self.generic_visit(node)
+    if len(node.ops) == 1 and type(node.ops[0]) in self.FLIP:
+      return ast.Compare(left=node.comparators[0], ops=[self.FLIP[type(node.ops[0])]()], comparators=[node.left])
+    return node
+
+
+class ReverseKeywords(ast.NodeTransformer):
+  def visit_Call(self, node):
+    self.generic_visit(node)
+    if len(node.keywords) > 1 and all(k.arg is not None for k in node.keywords):
+      node.keywords = list(reversed(node.keywords))
     return node
 
 
@@ -132,6 +152,10 @@ def noisy(path):
     tree = Invert().visit(tree)
   elif NESTED:
     tree = RenameNested().visit(tree)
+  elif MIRROR:
+    tree = Mirror().visit(tree)
+  elif KWPOS:
+    tree = ReverseKeywords().visit(tree)
   else:
     tree = Noise().visit(tree)
   ast.fix_missing_locations(tree)
